@@ -45,6 +45,12 @@ def _texts(tier):
     core = [t for t in alphabet.HAZARD_CORE if t and not t.startswith("#")][: (12 if tier == "quick" else 40)] + ["5pm", "tomorrow", "monday", "9:30"]
     core = list(dict.fromkeys(core))
     k2 += [a + " #lbl " + b for a in core for b in core]
+    # the same token twice in one text (a value object shared between the two occurrences would be edited twice)
+    rep = ["friday", "monday", "tomorrow", "5pm", "may", "evening", "eight", "12.5."]
+    k2 += [t + " " + t for t in rep] + ["{} 3pm to {} 5pm".format(t, t) for t in rep[:3]] + ["{} 8 {} 9".format(t, t) for t in rep[:3]]
+    # date-time to date-time with hour-only clocks (minute missing on one or both sides)
+    ho = ["tomorrow 5 o'clock", "tomorrow 5:30", "13.2.2020 17 uhr", "13.2.2020 17:45", "13.2.2020 17h", "heute 8 uhr"]
+    k2 += [a + " - " + b for a in ho for b in ho]
     return corp, k1, list(dict.fromkeys(k2))
 
 
